@@ -57,6 +57,8 @@ func init() {
 		{"C07", "adder", props.C07adder},
 		{"C05", "adder", props.C07adder},
 		{"C17", "garble", props.C01},
+		{"C06", "retained", props.RetainedCallerSlices("ot")},
+		{"C18", "retained", props.RetainedCallerSlices("ot", "sha2pc")},
 		{"C13", "hexwidth", props.HexWidthAgreement},
 		{"C17", "sharedtable", props.MemoSyncMaps("circuit", "ot", "p2p", "gmw", "compiler/ssa", "compiler/circuits", "compiler/mpa", "compiler/ast", "compiler")},
 		{"C08", "sharedtable", props.MemoSyncMaps("compiler/ssa", "compiler/circuits", "compiler/mpa", "compiler/ast", "compiler", "circuit")},
